@@ -335,18 +335,18 @@ def _transfer_length_ext(tree, ob):
     EXT = 'tcpcl/extend.py'
     binds = [(lo, up, kws, node) for (lo, up, kws, node) in schema.bindings(tree, EXT) if up == 'TransferTotalLength']
     if len(binds) != 1 or binds[0][0] != 'TransferExtendHeader' or binds[0][2].get('type') != 1:
-        ob.violate(EXT, 'TransferTotalLength', 'bind_extension(...)', 'the Transfer Length extension is not bound to transfer extension type 0x0001', binds[0][3] if binds else tree.klass(EXT, 'TransferTotalLength'))
+        ob.violate(EXT, 'TransferTotalLength', 'bind_extension(...)', 'the Transfer Length extension is not bound to transfer extension type 0x0001', binds[0][3] if binds else tree.klass(EXT, 'TransferTotalLength'), sure=True)
     else:
         ob.site(EXT, binds[0][3], 'Transfer Length = transfer extension type 0x0001')
     flds = schema.fields_desc(tree, EXT, 'TransferTotalLength')
     if len(flds) != 1 or flds[0].name != 'total_length' or flds[0].width != 8:
-        ob.violate(EXT, 'TransferTotalLength', 'fields_desc', 'the Transfer Length value is not one 64-bit unsigned integer: {}'.format([(f.name, f.width) for f in flds]), tree.klass(EXT, 'TransferTotalLength'))
+        ob.violate(EXT, 'TransferTotalLength', 'fields_desc', 'the Transfer Length value is not one 64-bit unsigned integer: {}'.format([(f.name, f.width) for f in flds]), tree.klass(EXT, 'TransferTotalLength'), sure=True)
     else:
         ob.site(EXT, tree.klass(EXT, 'TransferTotalLength'), 'Transfer Length value: one 64-bit integer')
     hdr = schema.fields_desc(tree, MSGS, 'TransferExtendHeader')
     shape = [(f.name, f.width) for f in hdr if f.width is not None][:3]
     if [w for (n_, w) in shape] != [1, 2, 2]:
-        ob.violate(MSGS, 'TransferExtendHeader', 'fields_desc', 'the extension item header is not flags(1) type(2) length(2): {}'.format(shape), tree.klass(MSGS, 'TlvHead') if tree.has_class(MSGS, 'TlvHead') else None)
+        ob.violate(MSGS, 'TransferExtendHeader', 'fields_desc', 'the extension item header is not flags(1) type(2) length(2): {}'.format(shape), tree.klass(MSGS, 'TlvHead') if tree.has_class(MSGS, 'TlvHead') else None, sure=True)
     else:
         ob.site(MSGS, tree.klass(MSGS, 'TransferExtendHeader'), 'extension item header 1/2/2 octets')
 
@@ -359,15 +359,15 @@ def c04h(tree, ob):
         if set(kws) != {'msg_id'} or kws['msg_id'] is None:
             raise AnalysisError('C04.h: unrecognised MessageHead binding {}'.format(src(node)))
         if kws['msg_id'] in table:
-            ob.violate(MSGS, '<module>', src(node), 'two message classes bound to type code {}'.format(kws['msg_id']), node)
+            ob.violate(MSGS, '<module>', src(node), 'two message classes bound to type code {}'.format(kws['msg_id']), node, sure=True)
         table[kws['msg_id']] = (up, node)
     for code, (anchor, layout) in sorted(RFC9174_MESSAGES.items()):
         if code not in table:
-            ob.violate(MSGS, '<module>', 'msg_id={}'.format(code), 'RFC 9174 message type {} ({}) is not bound'.format(code, anchor), None)
+            ob.violate(MSGS, '<module>', 'msg_id={}'.format(code), 'RFC 9174 message type {} ({}) is not bound'.format(code, anchor), None, sure=True)
             continue
         (up, node) = table[code]
         if up != anchor:
-            ob.violate(MSGS, '<module>', src(node), 'type code {} is bound to {} but RFC 9174 assigns it to {}'.format(code, up, anchor), node)
+            ob.violate(MSGS, '<module>', src(node), 'type code {} is bound to {} but RFC 9174 assigns it to {}'.format(code, up, anchor), node, sure=True)
             continue
         flds = schema.fields_desc(tree, MSGS, anchor, inherit=False)
         got = []
@@ -377,7 +377,7 @@ def c04h(tree, ob):
                 kind += '?'
             got.append((kind, int(fld.width) if fld.width is not None and kind.rstrip('?') in ('flags', 'uint', 'len') else None))
         if got != layout:
-            ob.violate(MSGS, anchor, 'fields_desc', 'field layout {} differs from RFC 9174 {}'.format(got, layout), tree.klass(MSGS, anchor))
+            ob.violate(MSGS, anchor, 'fields_desc', 'field layout {} differs from RFC 9174 {}'.format(got, layout), tree.klass(MSGS, anchor), sure=True)
         else:
             ob.site(MSGS, node, 'type {} = {} layout {}'.format(code, anchor, got))
     # MSG_REJECT: both fields are one octet, so the table above cannot tell their order.  RFC 9174 (figure "Format of
@@ -390,13 +390,13 @@ def c04h(tree, ob):
             ob.site(MSGS, tree.klass(MSGS, 'RejectMsg'), 'MSG_REJECT = (reason code, rejected message header)')
         else:
             ob.violate(MSGS, 'RejectMsg', 'fields_desc order ({}, {})'.format(*names), 'MSG_REJECT is encoded and decoded as (rejected message header, reason code); RFC 9174 has the reason code first: an '
-                       'independent peer reads the rejected type as the reason and vice versa', tree.klass(MSGS, 'RejectMsg'))
+                       'independent peer reads the rejected type as the reason and vice versa', tree.klass(MSGS, 'RejectMsg'), sure=True)
     for code in sorted(set(table) - set(RFC9174_MESSAGES)):
-        ob.violate(MSGS, '<module>', src(table[code][1]), 'type code {} is not an RFC 9174 message type'.format(code), table[code][1])
+        ob.violate(MSGS, '<module>', src(table[code][1]), 'type code {} is not an RFC 9174 message type'.format(code), table[code][1], sure=True)
     # header is one octet
     head = schema.fields_desc(tree, MSGS, 'MessageHead', inherit=False)
     if [(f.name, f.width) for f in head] != [('msg_id', 1)]:
-        ob.violate(MSGS, 'MessageHead', 'fields_desc', 'message header is not a single type octet', tree.klass(MSGS, 'MessageHead'))
+        ob.violate(MSGS, 'MessageHead', 'fields_desc', 'message header is not a single type octet', tree.klass(MSGS, 'MessageHead'), sure=True)
     # flag code points
     want = {('TransferSegment', 'Flag'): {'END': 1, 'START': 2}, ('SessionTerm', 'Flag'): {'REPLY': 1},
             ('SessionTerm', 'Reason'): {'UNKNOWN': 0, 'IDLE_TIMEOUT': 1, 'VERSION_MISMATCH': 2, 'BUSY': 3, 'CONTACT_FAILURE': 4, 'RESOURCE_EXHAUSTION': 5},
@@ -406,11 +406,11 @@ def c04h(tree, ob):
         enode = tree.klass(MSGS, cname + '.' + ename)
         got = enum_members(tree, MSGS, enode)
         if got != members:
-            ob.violate(MSGS, cname + '.' + ename, 'enum', 'code points {} differ from RFC 9174 {}'.format(got, members), enode)
+            ob.violate(MSGS, cname + '.' + ename, 'enum', 'code points {} differ from RFC 9174 {}'.format(got, members), enode, sure=True)
     # FlagsField names are listed LSB first from the enum: the names list must be ordered by value
     for cname in ('TransferSegment', 'SessionTerm', 'TlvHead'):
         enode = tree.klass(MSGS, cname + '.Flag')
         vals = [const_int(tree, MSGS, n.value) for n in enode.body if isinstance(n, ast.Assign)]
         exp = [1 << i for i in range(len(vals))]
         if vals != exp:
-            ob.violate(MSGS, cname + '.Flag', 'enum order', 'flag members {} are not declared in LSB-first order, which FlagsField(names=[...]) relies on'.format(vals), enode)
+            ob.violate(MSGS, cname + '.Flag', 'enum order', 'flag members {} are not declared in LSB-first order, which FlagsField(names=[...]) relies on'.format(vals), enode, sure=True)
